@@ -51,6 +51,16 @@ def probe_conns(a, pk):
     return conns
 
 
+def edited_tables_left(M):
+    """does any per-thread table copy that is still registered differ from the master table?  (An unedited copy that is left behind cannot influence a later
+    scan; an edited one can.)"""
+    for K in (M.ssh2_kexdb.SSH2_KexDB, M.ssh1_kexdb.SSH1_KexDB):
+        for t in list(K.DB_PER_THREAD.values()):
+            if t != K.MASTER_DB:
+                return True
+    return False
+
+
 class RecDict(dict):
     """DB_PER_THREAD replacement that records every key used"""
 
@@ -253,7 +263,8 @@ class WorkerStep(Harness):
         # the reference run cannot hide a stale entry.  The same unknown name rides along in both tasks (identical lists where the archetypes share them).
         first = self.one(M, self.first, inp['unk'], True)
         second = self.one(M, self.second, inp['unk'], False)
-        left = tid in M.ssh2_kexdb.SSH2_KexDB.DB_PER_THREAD or tid in M.ssh1_kexdb.SSH1_KexDB.DB_PER_THREAD
+        # a table left for this thread is harmless exactly when it is still an unedited copy of the master table
+        left = edited_tables_left(M)
         from vf.harness import fresh_process_state
         fresh_process_state(M)
         alone = self.one(M, self.second, inp['unk'], True)
@@ -271,13 +282,13 @@ class WorkerStep(Harness):
             yield 'same-json-as-single-target-run', a[2] == b[2]
         else:
             yield 'same-report-as-single-target-run', a[1] == b[1]
-        yield 'no-table-left-for-the-finished-task', not obs['table_left_behind']
+        yield 'no-edited-table-left-for-the-finished-task', not obs['table_left_behind']
         yield 'measured-size-is-in-the-report(probe-reached)', a[3] and b[3]
         if self.first == 'good':
             yield 'status-0-archetype-is-rated-good(reachability)', obs['first_ret'] == 0
 
     def classify(self, inp, obs, label):
-        if label in ('same-report-as-single-target-run', 'same-json-as-single-target-run', 'same-status-as-single-target-run', 'no-table-left-for-the-finished-task'):
+        if label in ('same-report-as-single-target-run', 'same-json-as-single-target-run', 'same-status-as-single-target-run', 'no-edited-table-left-for-the-finished-task'):
             return 'worker-never-discards-its-thread-table'
         return label
 
@@ -307,7 +318,9 @@ class NoSharedTrace(Harness):
         fresh_process_state(M)
         ws = WorkerStep(self.arch, self.arch, self.json)
         r = ws.one(M, self.arch, inp['unk'], True)
-        d = stateguard.diff(M)
+        d = stateguard.diff(M, ignore=('SSH2_KexDB.DB_PER_THREAD', 'SSH1_KexDB.DB_PER_THREAD'))
+        if edited_tables_left(M):
+            d = d + ['DB_PER_THREAD (an EDITED table copy is left behind)']
         return {'ok': not isinstance(r, Exc), 'changed': d}
 
     def check(self, inp, obs):
